@@ -289,4 +289,129 @@ class DataFrameStrategyJointUnique(Contract):
         return thunk
 
 
-CONTRACTS = [DataFrameStrategyPipeline, DataFrameStrategyJointUnique]
+class _Token:
+    """a strategy built by a check's strategy function on top of `base` (None: from the dtype alone)"""
+
+    __pyvc_symbolic__ = True
+
+    def __init__(self, by, base):
+        self.by, self.base = by, base
+
+    def chain(self):
+        out, t = [], self
+        while isinstance(t, _Token):
+            out.append(t.by)
+            t = t.base
+        return out
+
+
+class _BuiltinDispatcher:
+    """STRATEGY_DISPATCHER for built-in checks: register_builtin_check files their strategy under (name, every pandas data type)"""
+
+    __pyvc_symbolic__ = True
+
+    def get(self, key, default=None):
+        name, dt = key
+        return name.registered_fn if isinstance(name, CheckName) and name.registered_fn is not None else default
+
+
+class DataFrameStrategyRowChecks(Contract):
+    """dataframe_strategy with a dataframe-level check that has a strategy (every built-in check): hypothesis then draws the CELLS from
+    the `rows=` strategy (`data_frames(columns=..., rows=...)`: the column strategies only name and type the columns).  "Generated data
+    validates" therefore needs the row strategy of each column to honour that column's OWN checks as well:
+
+        post.the_row_strategy_of_a_column_honours_the_columns_own_checks    the cell strategy of column a is built through the strategy
+                                                                            of a's check AND of the dataframe-level check
+    (column checks without a strategy are filtered on the assembled frame: DataFrameStrategyPipeline)."""
+
+    target = f"{PS}:dataframe_strategy"
+    check_frame = False
+    sym_globals = {f"{PS}:STRATEGY_DISPATCHER": T.Lazy(lambda n: _BuiltinDispatcher())}
+
+    def setup(self, I):
+        install_common(I)
+        call_objects_through_dunder_call(I)
+        import hypothesis.extra.pandas as pdst
+        import hypothesis.strategies as st
+
+        def data_frames(I_, *a, columns=None, rows=None, index=None, **k):
+            cur().ghost["rows"] = rows
+            return FrameStrat(lambda: (Frame("assembled"), True), "data_frames(...)", op=None)
+
+        I.models[id(pdst.data_frames)] = data_frames
+        I.models[id(pdst.range_indexes)] = lambda I_, *a, **k: SAny(name="range_indexes")
+        I.models[id(st.fixed_dictionaries)] = lambda I_, mapping, **k: mapping
+        I.models[id(resolve_target(f"{PS}:null_dataframe_masks"))] = step("null_dataframe_masks")
+        I.models[id(resolve_target(f"{PS}:set_pandas_index"))] = step("set_pandas_index")
+        I.models[id(resolve_target(f"{PS}:pandas_dtype_strategy"))] = lambda I_, *a, **k: _Token("dtype", None)
+
+    def make_args(self):
+        p = cur()
+        I = p.ghost["interp"]
+
+        def strategy_of(name):
+            def f(pandera_dtype, strategy=None, **stats):  # pragma: no cover - replaced by a model
+                raise NotImplementedError
+
+            I.models[id(f)] = lambda I_, pandera_dtype, strategy=None, **stats: _Token(name, strategy)
+            return f
+
+        def builtin_check(name):
+            o = Obj(None, name, pre=True, fields={})
+            o.attrs.update(strategy=None, name=CheckName(strategy_of(name)), element_wise=False, statistics=DictObj())
+            o.attrs0.update(o.attrs)
+            return o
+
+        col = Obj(None, "column_a", pre=True, fields={"strategy_component": T.Callback(T.Any, raises=False)})
+        col.attrs.update(regex=False, checks=ListObj([builtin_check("column_check")]), dtype="int64", nullable=False, name="a", unique=False)
+        col.attrs0.update(col.attrs)
+        cols = DictObj()
+        dict.__setitem__(cols, "a", col)
+        return {"pandera_dtype": None, "strategy": None, "columns": cols, "checks": ListObj([builtin_check("dataframe_check")]), "unique": None, "index": None,
+                "size": T.fresh_value(T.Opt(T.Nat), "size"), "n_regex_columns": 1}
+
+    def call_target(self, I, fn, a):
+        return I.call(fn, [a["pandera_dtype"], a["strategy"]], {k: a[k] for k in ("columns", "checks", "unique", "index", "size", "n_regex_columns")})
+
+    def ensures(self, result, old, **a):
+        p = cur()
+        out = {"returns_a_strategy": isinstance(result, StratVal)}
+        if not isinstance(result, StratVal):
+            return out
+        result.draw()
+        rows = p.ghost.get("rows")
+        out["cells_are_drawn_from_a_row_strategy"] = isinstance(rows, dict) and "a" in rows
+        if out["cells_are_drawn_from_a_row_strategy"]:
+            chain = rows["a"].chain() if isinstance(rows["a"], _Token) else []
+            core.register_model_var("strategies the cells of column a go through", lambda m, c=chain: c)
+            out["the_row_strategy_honours_the_dataframe_level_check"] = "dataframe_check" in chain
+            out["the_row_strategy_of_a_column_honours_the_columns_own_checks"] = "column_check" in chain
+        return out
+
+    def concretize(self, rec):
+        def thunk():
+            """a column check next to a dataframe-level built-in check: every example must validate"""
+            import warnings
+
+            import hypothesis
+            import pandera as pa
+
+            warnings.simplefilter("ignore")
+            schema = pa.DataFrameSchema({"a": pa.Column(int, pa.Check.gt(0))}, checks=pa.Check.lt(100))
+            rejected = []
+
+            @hypothesis.settings(max_examples=60, derandomize=True, database=None, deadline=None, suppress_health_check=list(hypothesis.HealthCheck))
+            @hypothesis.given(schema.strategy(size=3))
+            def run(df):
+                try:
+                    schema.validate(df)
+                except (pa.errors.SchemaError, pa.errors.SchemaErrors):
+                    rejected.append(df["a"].tolist())
+
+            run()
+            return bool(rejected), {"Column(int, Check.gt(0)) under checks=Check.lt(100)": f"{len(rejected)} of the drawn frames rejected" + (f", e.g. a={rejected[0]}" if rejected else "")}
+
+        return thunk
+
+
+CONTRACTS = [DataFrameStrategyPipeline, DataFrameStrategyJointUnique, DataFrameStrategyRowChecks]
